@@ -213,6 +213,33 @@ def gen_raster(tier, seed_):
         add('compact', v, {'border': 0})
     if tier == 'thorough':
         add('png', 40, {'scale': 3, 'dark': 'darkred', 'light': None})
+    # the middle of every range: random (version, scale, border) away from the table boundaries, picture width limited to 400 pixels
+    allv = ['M1', 'M2', 'M3', 'M4'] + list(range(1, 41))
+    n_mid = 0
+    while n_mid < (70 if tier == 'quick' else 700):
+        v = r.choice(allv)
+        size = (9 + 2 * (allv.index(v) + 1)) if isinstance(v, str) else 17 + 4 * v
+        sc, b = r.randint(1, 13), r.randint(0, 11)
+        if (size + 2 * b) * sc > 400:
+            continue
+        kind = r.choice(('png', 'png', 'pbm', 'pam', 'ppm', 'xbm', 'xpm', 'txt', 'ans', 'compact'))
+        kw = {'border': b}
+        if kind not in ('txt', 'ans', 'compact'):
+            kw['scale'] = sc
+        if kind == 'png':
+            kw.update(r.choice(PNG_COLOURS)[0])
+            if r.random() < 0.3:
+                kw['dpi'] = r.choice((72, 150, 299, 600))
+        elif kind == 'pam':
+            kw.update(r.choice(PAM_COLOURS))
+        elif kind == 'ppm':
+            kw.update(r.choice(PPM_COLOURS))
+        elif kind == 'xpm':
+            kw.update(r.choice(XPM_COLOURS))
+        elif kind == 'pbm':
+            kw['plain'] = r.choice((True, False))
+        add(kind, v, kw)
+        n_mid += 1
     return specs
 
 
@@ -418,6 +445,21 @@ def gen_vector(tier, seed_):
     for v in ([7, 20, 40] if tier == 'quick' else list(range(4, 41))):
         for kind in ('svg', 'eps', 'pdf', 'tex'):
             add(kind, v, {'scale': r.choice((1, 2, 0.5))})
+    # the middle of every range: random version, scale (2-3 decimals), border
+    allv = ['M1', 'M2', 'M3', 'M4'] + list(range(1, 41))
+    for _ in range(80 if tier == 'quick' else 800):
+        v = r.choice(allv if r.random() < 0.5 else allv[:14])
+        sc = r.choice((round(r.uniform(0.05, 1), 3), round(r.uniform(1, 30), 2), r.randint(1, 40), round(r.uniform(1, 4), 1)))
+        kind = r.choice(('svg', 'svg', 'eps', 'pdf', 'tex'))
+        kw = {'scale': sc, 'border': r.randint(0, 12)}
+        size = (9 + 2 * (allv.index(v) + 1)) if isinstance(v, str) else 17 + 4 * v
+        if (size + 2 * kw['border']) * sc > 1900:        # TLC integers are 32 bit; coordinates are handled in micro-units
+            kw['scale'] = sc = round(1900 / (size + 2 * kw['border']) * r.uniform(0.3, 1), 2)
+        if kind != 'tex':
+            kw.update(r.choice(VEC_COLOURS))
+        if kind == 'svg' and r.random() < 0.5:
+            kw.update(r.choice(SVG_OPTS))
+        add(kind, v, kw)
     # symbols that contain a row without dark modules (the line iterator must still advance)
     for v in ('M1', 1):
         for kind in ('svg', 'eps', 'pdf', 'tex'):
@@ -551,6 +593,21 @@ def gen_typed(tier, seed_):
             add('typed', kind, v, {'quiet_zone': 'black', 'timing_light': 'black', 'timing_dark': 'white'})
             # the same colour given in different notations for different types
             add('typed', kind, v, {'dark': '#000', 'finder_dark': 'black', 'timing_dark': 'darkred', 'data_dark': (0, 0, 0), 'border': 1})
+        # every single option on symbols that do / do not contain modules of that type (M1: no alignment, no version, no dark module;
+        # version 1: no alignment pattern; border 0: no quiet zone), with and without scaling
+        for opt in TYPE_OPTS:
+            for v in (('M1', 1, 7) if tier == 'quick' else ('M1', 'M4', 1, 2, 6, 7)):
+                for sc in (1, 3) if kind != 'svg' else (1, 2.5):
+                    for b in (0, 2):
+                        add('typed', kind, v, {opt: 'red', 'scale': sc, 'border': b})
+        # the middle of the version range (per-type colours of versions 8 .. 40: many alignment patterns, version information)
+        for _ in range(6 if tier == 'quick' else 40):
+            v = r.randint(8, 40)
+            kw = {opt: r.choice(PALETTE) for opt in r.sample(TYPE_OPTS, r.randint(3, 8))}
+            kw['border'] = r.randint(0, 6)
+            if kind == 'svg' and r.random() < 0.5:
+                kw['scale'] = round(r.uniform(0.5, 4), 2)
+            add('typed', kind, v, kw)
         # crafted data regions (equal adjacent rows / columns, all dark, all light, stripes): function patterns untouched
         cols = r.sample(PALETTE, 13)
         allkw = {opt: cols[i % 13] for i, opt in enumerate(TYPE_OPTS)}
